@@ -289,7 +289,7 @@ Join(s) ==
   /\ out' = Map(LAMBDA d : [Msg(d, 117) EXCEPT !.chat = k, !.uid = conn[c].id, !.name = conn[c].name,
                                                !.icon = conn[c].icon, !.flags = Flags(conn[c])],
                 ById(LiveMembers(k)))
-            \o << [Reply(c) EXCEPT !.data = chats[k].subject, !.users = Map(UserRec, ById(after))] >>   \* (disconnected members are still listed: the chat is not told about disconnects)
+            \o << [Reply(c) EXCEPT !.data = chats[k].subject, !.users = Map(UserRec, ById(after \cap Live))] >>   \* members whose connection is gone are dropped
   /\ UNCHANGED <<agreement, accts, conn, bans>>
 
 Leave(s) ==
